@@ -22,9 +22,9 @@ for d in seeded/*/; do
     C12-m7) checks="C12 C15";;
     C16-m7) checks="C16 C15";;
     C09-m7) checks="C09 C16";;
-    C10-m8) checks="C10 C02 C07";;
-    C08-m8) checks="C08";;
-    C12-m8) checks="C12 C06";;
+    C10-m8) checks="C10 C02";;          # not detected (admissible pages; DESIGN 10.11)
+    C08-m8) checks="C08";;              # needs the thorough tier (two restarts around a 100000-packet world): MUT_TIER=thorough
+    C12-m8) checks="C12";;
     C09-m5) continue;;          # obsolete: its scenario (data query on a tag with converters) is rejected since fix 2d7… (see DESIGN 10.6)
   esac
   python3 lib/mutants.py run $n $checks 2>&1 | grep -v KNOWN | cut -c1-240 >> $OUT.tmp
